@@ -1,0 +1,111 @@
+// Copyright 2019 The Scriggo Authors. All rights reserved.
+// Use of this source code is governed by a BSD-style
+// license that can be found in the LICENSE file.
+
+//go:build verif
+
+package runtime
+
+import "reflect"
+
+// With the verif build tag the virtual machine calls the hooks below at its
+// scheduling points, so that a deterministic simulator can decide which
+// goroutine runs next and which ready case of a select is chosen. The hooks
+// must be set before any virtual machine is started.
+
+const simEnabled = true
+
+// SimSlot is the per virtual machine slot owned by the simulator.
+type SimSlot struct {
+	P any
+}
+
+type simState = SimSlot
+
+// SimHooks are the functions called at the scheduling points.
+type SimHooks struct {
+	// Begin and End are called at the start and at the end of the execution
+	// of a function in a virtual machine (the main one, the one of a
+	// goroutine, and the ones that run functions called by native code).
+	Begin func(s *SimSlot)
+	End   func(s *SimSlot)
+	// Instr is called before each instruction and before testing if the
+	// context has been canceled.
+	Instr func(s *SimSlot)
+	// Go is called before starting the goroutine of a go statement.
+	Go func(parent, child *SimSlot)
+	// Close is called before closing a channel.
+	Close func(s *SimSlot, ch reflect.Value)
+	// BeforeRecv, BeforeSend and BeforeSelect are called immediately
+	// before a channel operation. BeforeSelect can neutralize cases by
+	// setting their Chan field to the zero Value.
+	BeforeRecv   func(s *SimSlot, ch reflect.Value)
+	BeforeSend   func(s *SimSlot, ch reflect.Value)
+	BeforeSelect func(s *SimSlot, cases []reflect.SelectCase)
+	// AfterChanOp is called immediately after a channel operation; for a
+	// select, cases are the cases passed to BeforeSelect, that must be
+	// restored, and chosen is the index of the chosen case.
+	AfterChanOp func(s *SimSlot, cases []reflect.SelectCase, chosen int)
+}
+
+var simHooks *SimHooks
+
+// SetSimHooks sets the simulation hooks. It must be called when no virtual
+// machine is running.
+func SetSimHooks(h *SimHooks) {
+	simHooks = h
+}
+
+func simBegin(vm *VM) {
+	if h := simHooks; h != nil && h.Begin != nil {
+		h.Begin(&vm.sim)
+	}
+}
+
+func simEnd(vm *VM) {
+	if h := simHooks; h != nil && h.End != nil {
+		h.End(&vm.sim)
+	}
+}
+
+func simInstr(vm *VM) {
+	if h := simHooks; h != nil && h.Instr != nil {
+		h.Instr(&vm.sim)
+	}
+}
+
+func simGo(vm, nvm *VM) {
+	if h := simHooks; h != nil && h.Go != nil {
+		h.Go(&vm.sim, &nvm.sim)
+	}
+}
+
+func simClose(vm *VM, ch reflect.Value) {
+	if h := simHooks; h != nil && h.Close != nil {
+		h.Close(&vm.sim, ch)
+	}
+}
+
+func simBeforeRecv(vm *VM, ch reflect.Value) {
+	if h := simHooks; h != nil && h.BeforeRecv != nil {
+		h.BeforeRecv(&vm.sim, ch)
+	}
+}
+
+func simBeforeSend(vm *VM, ch reflect.Value) {
+	if h := simHooks; h != nil && h.BeforeSend != nil {
+		h.BeforeSend(&vm.sim, ch)
+	}
+}
+
+func simBeforeSelect(vm *VM, cases []reflect.SelectCase) {
+	if h := simHooks; h != nil && h.BeforeSelect != nil {
+		h.BeforeSelect(&vm.sim, cases)
+	}
+}
+
+func simAfterChanOp(vm *VM, cases []reflect.SelectCase, chosen int) {
+	if h := simHooks; h != nil && h.AfterChanOp != nil {
+		h.AfterChanOp(&vm.sim, cases, chosen)
+	}
+}
